@@ -340,6 +340,10 @@ M("C03-twin-two-sided-mask", {"C03": None}, (_GL, "    small_element_indices = n
 
 # ---------------------------------------------------------------- C11
 _UV = "admm/unique_values.py"
+M("C11-shared-default-lists", {"C11": "C11.R5"},
+  (_UV, "    row_indices = [r for (r, _) in positions_as_coordinates]\n    column_indices = [c for (_, c) in positions_as_coordinates]\n    return (row_indices, column_indices)\n",
+        "    return _split_positions(positions_as_coordinates)\n"),
+  (_UV, "@functools.cache\ndef locations_compressed(", "def _split_positions(positions, row_indices=[], column_indices=[]):\n    for (r, c) in positions:\n        row_indices.append(r)\n        column_indices.append(c)\n    return (row_indices, column_indices)\n\n\n@functools.cache\ndef locations_compressed("))
 _MC = "matrix_compression.py"
 M("C11-index-r-minus-one", {"C11": ["C11.R1", "C11.R5"]}, (_UV, "    return uncompressed_size*(r+1) - r*(r+1)/2", "    return uncompressed_size*(r+1) - r*(r-1)/2"))
 M("C11-index-after-target", {"C11": ["C11.R1", "C11.R5"]}, (_UV, "    return (full_row_length-1) - c", "    return full_row_length - c"))
@@ -450,6 +454,9 @@ M("C19-stack-centres-input", {"C19": "C19.R1"}, (_DP, "    num_data_points = dat
 M("C19-joint-price-inplace", {"C19": "C19.R1"}, ("front_end.py", "    label_switching_cost = label_switching_cost * lsc_template\n", "    label_switching_cost *= lsc_template\n"))
 M("C19-kernel-row-view-accumulate", {"C19": "C19.R1"}, (_K, "        total_vals = future_cost_vals[i+1] + label_assignment_cost[i+1] + label_switching_cost[i]\n", "        total_vals = label_assignment_cost[i+1]\n        total_vals += future_cost_vals[i+1]\n        total_vals += label_switching_cost[i]\n"))
 M("C19-solver-symmetrise-input", {"C19": "C19.R1"}, (_S, "    z_old = None\n    for iteration", "    empirical_covariance += empirical_covariance.T\n    empirical_covariance *= 0.5\n    z_old = None\n    for iteration"))
+M("C19-conditional-rebind-then-inplace", {"C19": "C19.R1"},
+  (_S, "    z_old = None\n    for iteration", "    args = args.deep_copy()\n    if args.rho != 1:\n        args.sparsity_weight = args.sparsity_weight / args.rho\n    z_old = None\n    for iteration"),
+  (_S, "                args.rho = new_rho\n", "                args.rho = new_rho\n                args.sparsity_weight *= scale\n"))
 M("C19-lambda-matrix-fill-diagonal", {"C19": "C19.R1"}, (_S, "    if isinstance(lambda_parameter, np.ndarray):\n", "    if isinstance(lambda_parameter, np.ndarray):\n        np.fill_diagonal(lambda_parameter, 0)\n"))
 M("C19-series-list-sorted-inplace", {"C19": "C19.R1"}, ("front_end.py", "    data_series = list(data_series)\n", "    data_series.sort(key=len)\n"))
 M("C19-series-element-edit", {"C19": "C19.R1"}, ("front_end.py", "    data_series = list(data_series)\n", "    data_series = list(data_series)\n    data_series[0][0, :] = 0\n"))
